@@ -10,7 +10,13 @@ from props import c01
 
 ID = 'C10'
 LEAN_MODULES = ['PybtexModel.Props.C10']
-THEOREMS = {}
+THEOREMS = {
+    'C10_total': 'total: for every text, mode, wanted-set, macro table the reader model never runs out of fuel or takes an impossible branch (no error of kind internal reported or raised); when nothing is raised the whole text was read (no "@" left)',
+    'C10_located': 'located: every syntax error reported or raised carries a line number l with 1 <= l <= 1 + number of line breaks of the text',
+    'C10_modes': 'modes: continue mode raises nothing (but the BibTeXError of Person()); strict mode ends exactly like continue mode when nothing was reported, else raises the first reported problem',
+    'C10_prefix_stable': 'confined_before: entries, preamble and problems present after the first k commands are initial segments of those of the complete run (only ever appended)',
+    'C10_confined_neg': 'confined_after fails with an "@" inside the malformed entry: witness evaluated in the kernel (bogus entry shadows a later real one) - known finding C10-at-inside-malformed-entry',
+}
 RULE = ('every string up to the tier length over the token alphabet {@ a 1 { } ( ) " , = # space newline}; every single token-level '
         'corruption (delete, duplicate, replace by each token kind, truncate) of one entry of rendered well-formed documents; seeded random '
         'Unicode text; each in capture, strict and non-strict mode; non-trivial = text containing "@"; distinct by case JSON')
@@ -268,5 +274,16 @@ def gen_cases(tier, rng, info):
     return cases
 
 
-LEVEL_TEXT = 'filled when the proofs are registered'
-LEVEL_NOTE = ''
+LEVEL_TEXT = ('Machine-checked proofs (Lean 4) about the function-by-function model of LowLevelParser / Parser (Model/BibParse.lean) for EVERY text, '
+              'mode, wanted-set, initial macro table and person-field list: the fuel of every loop suffices and no impossible branch is taken, '
+              'so only pybtex error kinds occur and the text is read to its end (C10_total); every syntax error carries a line of the text '
+              '(C10_located, invariant: line counter + line breaks of the unread rest = 1 + line breaks of the text); strict reading = continue-mode '
+              'reading cut at the first reported problem, same database when there is none (C10_modes, simulation of the two runs); what was read '
+              'after k commands is only ever extended (C10_prefix_stable). Confinement after a malformed entry is refuted on a kernel-evaluated '
+              'witness with an "@" inside the entry (C10_confined_neg, known finding); its restricted positive form (no "@" inside, balanced '
+              'braces/quotes) is NOT proved - it is covered by the differential oracle only.')
+LEVEL_NOTE = ('Trusted: Lean kernel; axioms propext/Classical.choice/Quot.sound at most; the hand-written model corresponds to pybtex only as far as '
+              'the differential check explores (every string of length <= 4/5 over the token alphabet, single-token corruptions, random Unicode; capture '
+              'and strict mode). "Never an internal exception/hang" of CPython itself is sampled, not proved. Not proved: C10_confined_partial; that the '
+              'reported line EQUALS the line of the offending position (only the bounds); unreachability of the BibTeXError raised by Person() on names '
+              'nested deeper than 100 braces (reachable through a caller-supplied macro table, so C10_total / C10_modes leave it out explicitly).')
